@@ -13,6 +13,8 @@ from typing import Any, Dict, List, Optional, Set, Tuple
 from ..loader import AnalysisError, ClassInfo, FuncInfo, Module, Program
 from ..model import Model
 from ..report import Run
+from ..engine import Interp
+from ..values import Const, ListV, StrV, Sym, Term, TupleV, V
 
 MOD = "d42.migration.migrate_v1_to_v2"
 
@@ -125,7 +127,7 @@ def check(run: Run, prog: Program, model: Model, tier: str) -> None:
         run.undecided("SCOPE-TOPLEVEL", "rewrite_imports: statement loop", fn.loc, "statement loop not recognised")
         return
     var = node_loop.target.id if isinstance(node_loop.target, ast.Name) else None
-    # isinstance(node, ast.ImportFrom) guard
+    # the statement guarded by isinstance(node, ast.ImportFrom) (subject of the syntactic UNMAPPED / ALIAS rules below)
     guard = None
     for st in node_loop.body:
         if isinstance(st, ast.If):
@@ -133,38 +135,9 @@ def check(run: Run, prog: Program, model: Model, tier: str) -> None:
             for c in ast.walk(t):
                 if isinstance(c, ast.Call) and isinstance(c.func, ast.Name) and c.func.id == "isinstance" \
                         and len(c.args) == 2 and isinstance(c.args[0], ast.Name) and c.args[0].id == var:
-                    kinds = _attrs_in(c.args[1]) | _names_in(c.args[1])
-                    guard = (st, kinds)
-    if guard is None:
-        run.undecided("SCOPE-IMPORTFROM", "rewrite_imports: node kind guard", fn.loc, "no isinstance guard found")
-        return
-    gst, kinds = guard
-    if "ImportFrom" in kinds and "Import" not in kinds:
-        run.holds("SCOPE-IMPORTFROM", "rewrite_imports: node kind guard", f"{mod.path}:{gst.lineno}",
-                  "only ast.ImportFrom nodes produce replacements", nontrivial=True)
-    else:
-        run.violated("SCOPE-IMPORTFROM", "rewrite_imports: node kind guard", f"{mod.path}:{gst.lineno}",
-                     f"guard admits {sorted(kinds)}", witness="import district42")
-    # relative imports skipped
-    rel_ok = False
-    for st in ast.walk(gst):
-        if isinstance(st, ast.If):
-            t = st.test
-            if isinstance(t, ast.Compare) and isinstance(t.left, ast.Attribute) and t.left.attr == "level":
-                exits = any(isinstance(x, (ast.Continue, ast.Return)) for x in st.body)
-                op = t.ops[0]
-                c = t.comparators[0]
-                if exits and isinstance(c, ast.Constant) and (
-                        (isinstance(op, ast.Gt) and c.value == 0) or (isinstance(op, ast.GtE) and c.value == 1)
-                        or (isinstance(op, ast.NotEq) and c.value == 0)):
-                    rel_ok = True
-    if rel_ok:
-        run.holds("SCOPE-ABSOLUTE", "rewrite_imports: relative imports", f"{mod.path}:{gst.lineno}",
-                  "node.level > 0 leaves the statement untouched", nontrivial=True)
-    else:
-        run.violated("SCOPE-ABSOLUTE", "rewrite_imports: relative imports", f"{mod.path}:{gst.lineno}",
-                     "no guard that skips relative imports: `from .district42 import schema` would be rewritten",
-                     witness="from .district42 import schema\n")
+                    guard = st
+    gst = guard if guard is not None and not _only_exits(guard.body) else node_loop
+    _scope_guards(run, prog, model, fn, mod)
 
     # unmapped names: list that receives names in the else-branch must be emitted with the ORIGINAL module
     _check_unmapped(run, mod, fn, gst)
@@ -186,6 +159,153 @@ def check(run: Run, prog: Program, model: Model, tier: str) -> None:
         _column_slices(run, mod, fn, body, node_loop, slice_assign)
     else:
         run.undecided("SPAN", "rewrite_imports: splice granularity", fn.loc, "splice statement not recognised")
+
+
+def _only_exits(body: List[ast.stmt]) -> bool:
+    return all(isinstance(x, (ast.Continue, ast.Pass)) for x in body)
+
+
+def _walk_values(v: Any, seen: Optional[Set[int]] = None) -> Any:
+    if seen is None:
+        seen = set()
+    if id(v) in seen:
+        return
+    seen.add(id(v))
+    yield v
+    if isinstance(v, Term):
+        for a in v.args:
+            yield from _walk_values(a, seen)
+    elif isinstance(v, (ListV, TupleV)):
+        for a in v.items:
+            yield from _walk_values(getattr(a, "value", a), seen)
+    elif isinstance(v, StrV):
+        for piece in v.pieces:
+            if not isinstance(piece, str):
+                yield from _walk_values(piece[0], seen)
+    elif isinstance(v, Sym) and v.origin:
+        for a in v.origin:
+            if isinstance(a, V):
+                yield from _walk_values(a, seen)
+
+
+def _scope_guards(run: Run, prog: Program, model: Model, fn: FuncInfo, mod: Module) -> None:
+    """SCOPE-IMPORTFROM / SCOPE-ABSOLUTE, decided on the paths of rewrite_imports (abstract evaluation with one
+    symbolic top-level statement): whenever a replacement is recorded for a statement - some container receives a
+    value carrying that statement's `lineno` - the path has established isinstance(node, ast.ImportFrom) and
+    node.level == 0.  Independent of how the guards are spelled (nested ifs, early `continue`, helper functions)."""
+    it = Interp(prog, model, unroll=1)
+
+    def run1(i: Interp) -> V:
+        return i.call_function(fn, [Sym("source_code", "str", ("param", "source_code")),
+                                    Sym("mapping", "dict", ("param", "mapping"))], {})
+    paths = it.run_paths(run1)
+    records = []      # (path, event, node symbol)
+    for p in paths:
+        for e in p.events:
+            if e.kind != "write":
+                continue
+            vals = list(e.data.get("args") or []) + ([e.data["value"]] if isinstance(e.data.get("value"), V) else [])
+            node = None
+            for a in vals:
+                for x in _walk_values(a):
+                    if isinstance(x, Term) and x.op == "attr" and len(x.args) == 2 and x.args[1] == "lineno" \
+                            and isinstance(x.args[0], Sym) and x.args[0].origin and x.args[0].origin[0] == "elem":
+                        node = x.args[0]
+            if node is not None:
+                records.append((p, e, node))
+                break          # the first recording on the path
+    site = fn.loc
+    if not records:
+        for r in ("SCOPE-IMPORTFROM", "SCOPE-ABSOLUTE"):
+            run.undecided(r, "rewrite_imports: " + ("node kind guard" if r.endswith("FROM") else "relative imports"), site,
+                          "no path records a replacement carrying a statement's line number: collection not recognised")
+        return
+    kinds_bad: Set[str] = set()
+    no_guard = undecided_kind = False
+    rel: Set[str] = set()
+    for p, e, node in records:
+        nk = node.key()
+        facts = p.facts[:e.nfacts]
+        isin = [(t, b) for _, t, b in facts if isinstance(t, Term) and t.op == "isinstance" and t.args[0].key() == nk]
+        pos = [str(t.args[1]) for t, b in isin if b]
+        if any(lab.split(".")[-1] == "ImportFrom" for lab in pos):
+            pass
+        elif pos:
+            kinds_bad |= {k for lab in pos for k in lab.split("|")}
+        elif any(nk in k for k, _, _ in facts):
+            undecided_kind = True
+        else:
+            no_guard = True
+        # admitted values of node.level in {0..3}
+        lk = f"attr({nk}, level)"
+        admitted = set(range(4))
+        unknown = False
+        for k, t, b in facts:
+            if lk not in k:
+                continue
+            ok_vals = set()
+            for lv in admitted:
+                r = _eval_level(t, lk, lv)
+                if r is None:
+                    unknown = True
+                    ok_vals.add(lv)
+                elif r == b:
+                    ok_vals.add(lv)
+            admitted = ok_vals
+        if admitted == {0}:
+            rel.add("ok")
+        elif unknown:
+            rel.add("unknown")
+        else:
+            rel.add("bad")
+    c1 = "rewrite_imports: node kind guard"
+    if kinds_bad:
+        run.violated("SCOPE-IMPORTFROM", c1, site, f"a replacement is recorded for nodes of kind {sorted(kinds_bad)}", witness="import district42")
+    elif no_guard:
+        run.violated("SCOPE-IMPORTFROM", c1, site, "a replacement is recorded without any test of the statement's kind",
+                     witness="import district42 / x = 1 (no .module, no .names)")
+    elif undecided_kind:
+        run.undecided("SCOPE-IMPORTFROM", c1, site, "the statement is tested, but not with isinstance(node, ast.ImportFrom)")
+    else:
+        run.holds("SCOPE-IMPORTFROM", c1, site, f"isinstance(node, ast.ImportFrom) holds on all {len(records)} recording paths", nontrivial=True)
+    c2 = "rewrite_imports: relative imports"
+    if "bad" in rel:
+        run.violated("SCOPE-ABSOLUTE", c2, site,
+                     "a replacement is recorded on a path that admits node.level > 0: `from .district42 import schema` would be rewritten",
+                     witness="from .district42 import schema\n")
+    elif "unknown" in rel:
+        run.undecided("SCOPE-ABSOLUTE", c2, site, "node.level is tested in a form that is not evaluated")
+    else:
+        run.holds("SCOPE-ABSOLUTE", c2, site, f"node.level == 0 is established on all {len(records)} recording paths", nontrivial=True)
+
+
+def _eval_level(t: Any, lk: str, lv: int) -> Optional[bool]:
+    """Truth of a decided condition over node.level for level == lv (None: not evaluable)."""
+    def val(x: Any) -> Optional[int]:
+        if isinstance(x, Const) and isinstance(x.value, int):
+            return int(x.value)
+        if isinstance(x, V) and x.key() == lk:
+            return lv
+        if isinstance(x, Term) and x.op == "bin" and x.args[0] in ("+", "-"):
+            a, b = val(x.args[1]), val(x.args[2])
+            if a is None or b is None:
+                return None
+            return a + b if x.args[0] == "+" else a - b
+        return None
+    if isinstance(t, V) and t.key() == lk:
+        return bool(lv)
+    if isinstance(t, Term) and t.op in ("lt", "eq") and len(t.args) == 2:
+        a, b = val(t.args[0]), val(t.args[1])
+        if a is None or b is None:
+            return None
+        return a < b if t.op == "lt" else a == b
+    if isinstance(t, Term) and t.op == "in" and len(t.args) == 2 and isinstance(t.args[1], (TupleV, ListV)):
+        a = val(t.args[0])
+        bs = [val(x) for x in t.args[1].items]
+        if a is None or any(x is None for x in bs):
+            return None
+        return a in bs
+    return None
 
 
 def _column_slices(run: Run, mod: Module, fn: FuncInfo, body: ast.FunctionDef, node_loop: ast.For, slice_assign: List[ast.Assign]) -> None:
